@@ -58,15 +58,8 @@ pub fn next_solution_append<'a>(bip: BuiltInPredicate,
                 Unifiable::SFunction{name: _, terms: _} |
                 Unifiable::SComplex(_) => { out_terms.push(t); },
                 Unifiable::SLinkedList{term: _, next: _, count: _, tail_var: _} => {
-                    let mut list = t;
-                    loop {
-                        if let Unifiable::SLinkedList{term, next,
-                                          count: _, tail_var: _} = list {
-                            if *term == Unifiable::Nil { break; }
-                            out_terms.push(*term);
-                            list = *next;
-                        }
-                    }
+                    // Collect the terms of the list, following a bound tail variable.
+                    out_terms.append(&mut get_terms(&t, &ss));
                 },
                 // LogicVar was dealt with above.
                 Unifiable::LogicVar{id: _, name: _} => {},
@@ -74,7 +67,7 @@ pub fn next_solution_append<'a>(bip: BuiltInPredicate,
 
         } // for
 
-        let out = make_linked_list(false, out_terms);
+        let out = make_list_of_terms(out_terms);
         let last_term = terms[length - 1].clone();
 
         // Unify new list with last term.
